@@ -9,7 +9,8 @@ and the global mask lies on every path to the result (C10.d); tile rendering mas
 returns empty for tiles not contained in the limit (C10.e); feature info is gated by the
 limit (C10.f).
 Added in round 4: a re-projected limit geometry keeps its holes (C10.k, shared C17.i); the clipped
-tile is alpha-composited onto a transparent canvas, never pasted with itself as mask (C10.l)."""
+tile is alpha-composited onto a transparent canvas, never pasted with itself as mask (C10.l).
+Added in round 5: the geometry of a limit is taken as given (C10.m)."""
 import ast
 
 from ..engine import rule
